@@ -4,10 +4,13 @@
    Same plan as Proofs.CutInvariant.
 
    Control dependence (/repo D18): a phi is judged with the control of its block
-   (Propagate.block_ctl: what is known about the branch condition that decides along
-   which edge the block is entered).  The control is read off a degree claim of the
-   CURRENT graph; like every claim it only goes from unknown to known (order
-   [mctl_le]) while the statement skeleton stays ([bext]/[gext]), so the invariant is
+   (Propagate.block_ctl: what is known about the branch conditions that decide along
+   which edge the block is entered - those ending a block on the dominator-tree chains
+   from its predecessors up to its immediate dominator, /repo 64f724b).  The control is
+   read off the degree claims of those conditions in the CURRENT graph; like every claim
+   it only goes from unknown to known (order [mctl_le]: every collected condition keeps
+   its claim once it has one, and one known non-constant condition already fixes
+   MNonConst) while the statement skeleton stays ([bext]/[gext]), so the invariant is
    kept per block: every statement of a block is justified under the block's control
    in the current graph ([GJ]); a claim made under the control recorded at the start
    of the block visit stays justified under every later control.  A phi below the top
@@ -910,19 +913,55 @@ Proof. rewrite <- (ssig_serase (snd (fst (pd_stmt env s)))), pd_stmt_pres. apply
 (* ---------- the control of a block only grows ---------- *)
 Definition dflt_stmt : stmt := SLog {| m_start := 0%N; m_end := 0%N; m_file := None |} [].
 Definition last_c (b : block) : option expr := cond_of (last (b_stmts b) dflt_stmt).
-Definition dec_of (o : option expr) : decider := match o with Some c => DecCond c | None => DecOpaque end.
 
-Lemma last_cond_c b : last_cond b = dec_of (last_c b).
+Lemma last_cond_c b : last_cond b = last_c b.
 Proof. unfold last_cond, last_c, dflt_stmt. destruct (last (b_stmts b) _); reflexivity. Qed.
 
-Lemma ctl_dec_mono a a' : oext a a' -> mctl_le (ctl_of (dec_of a)) (ctl_of (dec_of a')).
+(* a condition that has a claim keeps it: what is known non-constant stays so, and a
+   condition with a claim is never unknown again *)
+Lemma cond_nonconst_stable c0 c1 : dstable c0 c1 -> cond_nonconst c0 = true -> cond_nonconst c1 = true.
 Proof.
-  destruct a as [c0|], a' as [c1|]; cbn [oext dec_of ctl_of]; try contradiction.
-  - intros H. destruct (expr_deg c0) as [rg|] eqn:E; [|left; reflexivity]. rewrite (H _ E). apply mctl_le_refl.
-  - intros _. apply mctl_le_refl.
+  unfold cond_nonconst. intros H. destruct (expr_deg c0) as [rg|] eqn:E; [|discriminate].
+  rewrite (H _ E). auto.
 Qed.
 
-(* same index, same predecessors, a stable deciding condition *)
+Lemma cond_known_stable c0 c1 : dstable c0 c1 -> cond_unknown c0 = false ->
+  cond_unknown c1 = false /\ cond_nonconst c1 = cond_nonconst c0.
+Proof.
+  unfold cond_unknown, cond_nonconst. intros H. destruct (expr_deg c0) as [rg|] eqn:E; [|discriminate].
+  rewrite (H _ E). auto.
+Qed.
+
+Lemma existsb_nonconst_stable cs cs' : Forall2 dstable cs cs' ->
+  existsb cond_nonconst cs = true -> existsb cond_nonconst cs' = true.
+Proof.
+  induction 1 as [|x y l l' Hxy _ IH]; cbn [existsb]; [auto|].
+  intros H0. apply orb_true_iff in H0 as [H0|H0]; apply orb_true_iff.
+  - left. eapply cond_nonconst_stable; eauto.
+  - right. auto.
+Qed.
+
+Lemma existsb_known_stable cs cs' : Forall2 dstable cs cs' ->
+  existsb cond_unknown cs = false ->
+  existsb cond_unknown cs' = false /\ existsb cond_nonconst cs' = existsb cond_nonconst cs.
+Proof.
+  induction 1 as [|x y l l' Hxy _ IH]; cbn [existsb]; [auto|].
+  intros H0. apply orb_false_iff in H0 as [H0 H1].
+  destruct (cond_known_stable _ _ Hxy H0) as [-> ->]. destruct (IH H1) as [-> ->]. auto.
+Qed.
+
+(* MNonConst is returned as soon as ONE condition is known non-constant, even while
+   others are unknown: that value is already final *)
+Lemma ctl_of_conds_mono cs cs' : Forall2 dstable cs cs' -> mctl_le (ctl_of_conds cs) (ctl_of_conds cs').
+Proof.
+  intros H. unfold ctl_of_conds.
+  destruct (existsb cond_nonconst cs) eqn:En.
+  - rewrite (existsb_nonconst_stable _ _ H En). apply mctl_le_refl.
+  - destruct (existsb cond_unknown cs) eqn:Eu; [left; reflexivity|].
+    destruct (existsb_known_stable _ _ H Eu) as [-> ->]. rewrite En. apply mctl_le_refl.
+Qed.
+
+(* same index, same predecessors, a stable last condition *)
 Definition bext (b b' : block) : Prop :=
   b_index b = b_index b' /\ b_preds b = b_preds b' /\ oext (last_c b) (last_c b').
 Definition gext : list block -> list block -> Prop := Forall2 bext.
@@ -950,17 +989,38 @@ Proof.
   apply Forall_cons_iff in HP as [H1 H2]. constructor; eauto.
 Qed.
 
+(* the conditions the walk collects are the same positions of the two graphs *)
+Lemma cond_at_ext bs bs' i : gext bs bs' -> Forall2 dstable (cond_at bs i) (cond_at bs' i).
+Proof.
+  intros Hg. unfold cond_at. pose proof (Forall2_nth_error _ _ _ (N.to_nat i) Hg) as Hn.
+  destruct (nth_error bs (N.to_nat i)) as [bd|], (nth_error bs' (N.to_nat i)) as [bd'|]; try contradiction; [|constructor].
+  destruct Hn as (_ & _ & Hl). rewrite (last_cond_c bd), (last_cond_c bd').
+  destruct (last_c bd) as [c0|], (last_c bd') as [c1|]; cbn [oext] in Hl; try contradiction; constructor; [exact Hl|constructor].
+Qed.
+
+Lemma chain_conds_ext bs bs' idom stop : gext bs bs' -> forall fuel cur,
+  Forall2 dstable (chain_conds fuel bs idom stop cur) (chain_conds fuel bs' idom stop cur).
+Proof.
+  intros Hg. induction fuel as [|f IH]; intros cur; cbn [chain_conds]; [constructor|].
+  apply Forall2_app; [apply cond_at_ext; exact Hg|].
+  destruct (opt_eqb N.eqb (Some cur) stop); [constructor|].
+  destruct (nth_error idom (N.to_nat cur)) as [[d|]|]; [apply IH|constructor|constructor].
+Qed.
+
+Lemma Forall2_len {A} (R : A -> A -> Prop) l l' : Forall2 R l l' -> length l = length l'.
+Proof. induction 1; cbn [length]; congruence. Qed.
+
+Lemma flat_map_Forall2 {A B} (R : B -> B -> Prop) (f g : A -> list B) l :
+  (forall x, Forall2 R (f x) (g x)) -> Forall2 R (flat_map f l) (flat_map g l).
+Proof. intros H. induction l as [|x tl IH]; cbn [flat_map]; [constructor|]. apply Forall2_app; auto. Qed.
+
 Lemma block_ctl_mono idom bs bs' b b' :
   gext bs bs' -> bext b b' -> mctl_le (block_ctl bs idom b) (block_ctl bs' idom b').
 Proof.
-  intros Hg (Hi & Hp & Hl). unfold block_ctl, deciding. rewrite <- Hi, <- Hp.
+  intros Hg (Hi & Hp & _). unfold block_ctl, deciding. rewrite <- Hi, <- Hp.
   destruct (Nat.ltb (length (b_preds b)) 2); [apply mctl_le_refl|].
-  destruct (existsb (fun q => N.leb (b_index b) q) (b_preds b)); [rewrite !last_cond_c; apply ctl_dec_mono; exact Hl|].
-  destruct (nth_error idom (N.to_nat (b_index b))) as [[d|]|]; try apply mctl_le_refl.
-  pose proof (Forall2_nth_error _ _ _ (N.to_nat d) Hg) as Hn.
-  destruct (nth_error bs (N.to_nat d)) as [bd|], (nth_error bs' (N.to_nat d)) as [bd'|]; try contradiction;
-    [|apply mctl_le_refl].
-  rewrite !last_cond_c. apply ctl_dec_mono. exact (proj2 (proj2 Hn)).
+  apply ctl_of_conds_mono. rewrite <- (Forall2_len _ _ _ Hg).
+  apply flat_map_Forall2. intros q. apply chain_conds_ext. exact Hg.
 Qed.
 
 Lemma last_cons_ne {A} (a : A) l d : l <> [] -> last (a :: l) d = last l d.
@@ -1477,13 +1537,47 @@ Proof.
   unfold deg_none in Hc. destruct (kdeg k); [discriminate|reflexivity].
 Qed.
 
+(* ---------- the shape of the dominator table does not depend on the statements ---------- *)
+Lemma idom_shape_preds c c' idom : map b_preds (c_blocks c') = map b_preds (c_blocks c) ->
+  idom_shape c' idom = idom_shape c idom.
+Proof.
+  intros H. unfold idom_shape. f_equal.
+  assert (Hlen : length (c_blocks c') = length (c_blocks c)) by (rewrite <- (map_length b_preds), H; apply map_length).
+  rewrite Hlen. set (f := forallb (fun q => (N.to_nat q <? length (c_blocks c))%nat)).
+  assert (Hm : forall l, forallb (fun b => f (b_preds b)) l = forallb f (map b_preds l)).
+  { induction l as [|x tl IH]; [reflexivity|]. cbn [map forallb]. rewrite IH. reflexivity. }
+  rewrite !Hm, H. reflexivity.
+Qed.
+
+Lemma pd_blocks_preds idom : forall bs env res pre b bs' env',
+  pd_blocks idom env res pre bs = (b, bs', env') -> map b_preds bs' = map b_preds bs.
+Proof.
+  induction bs as [|blk tl IH]; intros env res pre b bs' env'; cbn [pd_blocks].
+  - intros [= <- <- <-]. reflexivity.
+  - destruct res; [intros [= <- <- <-]; reflexivity|].
+    destruct (pd_stmts _ false (b_stmts blk)) as [[r1 ss'] env1].
+    destruct (pd_blocks idom env1 r1 (pre ++ [set_stmts blk ss']) tl) as [[r2 tl'] env2] eqn:Et. intros [= <- <- <-].
+    cbn [map]. rewrite (IH _ _ _ _ _ _ Et). destruct blk; reflexivity.
+Qed.
+
+Lemma degrees_passes_preds idom : forall k env bs bs' env',
+  degrees_passes k idom env bs = (bs', env') -> map b_preds bs' = map b_preds bs.
+Proof.
+  induction k as [|k IH]; intros env bs bs' env'; cbn [degrees_passes].
+  - intros [= <- <-]. reflexivity.
+  - destruct (pd_blocks idom env false [] bs) as [[rerun bs1] env1] eqn:Ep.
+    pose proof (pd_blocks_preds idom _ _ _ _ _ _ _ Ep) as H1. destruct rerun.
+    + intros Hk. rewrite (IH _ _ _ _ Hk). exact H1.
+    + intros [= <- <-]. exact H1.
+Qed.
+
 (* ================= the universal statement of C20 (degrees) ================= *)
 Theorem degrees_validated_at_every_budget : forall k idom c bs env,
-  deg_wf c = true ->
+  deg_wf c = true -> idom_shape c idom = true ->
   degrees_passes k idom (denv_init (c_kind c) (c_params c)) (c_blocks c) = (bs, env) ->
   djust_cfg (set_blocks c bs) idom = true.
 Proof.
-  intros k idom c bs env Hwf Hk. unfold deg_wf in Hwf.
+  intros k idom c bs env Hwf Hshape Hk. unfold deg_wf in Hwf.
   apply andb_true_iff in Hwf as [Hwf Hphi].
   apply andb_true_iff in Hwf as [Hwf Hu]. apply andb_true_iff in Hwf as [Hclean Hsg].
   set (L := map ssig (all_stmts (c_blocks c))) in *.
@@ -1503,7 +1597,10 @@ Proof.
     assert (Hin : In s (all_stmts (c_blocks c))) by (unfold all_stmts; apply in_flat_map; eauto).
     rewrite forallb_forall in Hclean, Hphi. apply clean_dsjust; auto. }
   destruct (dpasses_inv c L idom Hsg HU k _ _ _ _ Hinit HJinit Hk) as (((E1 & E2 & E3) & HL) & HJ).
-  unfold djust_cfg. cbn [set_blocks c_blocks]. apply forallb_forall. intros b Hb.
+  unfold djust_cfg. apply andb_true_iff. split.
+  { rewrite (idom_shape_preds c (set_blocks c bs) idom); [exact Hshape|].
+    cbn [set_blocks c_blocks]. exact (degrees_passes_preds idom _ _ _ _ _ Hk). }
+  cbn [set_blocks c_blocks]. apply forallb_forall. intros b Hb.
   unfold djust_block. cbn [set_blocks c_blocks]. apply forallb_forall. intros s Hs.
   apply (dsjust_djust (set_blocks c bs) (unas c L) env).
   - intros v. rewrite unassigned_unas, HL. reflexivity.
@@ -1866,15 +1963,40 @@ Proof.
   rewrite H. rewrite forallb_clean_vserase, map_ssig_vserase, ldefs_unique_vserase, forallb_phi_top_vserase. reflexivity.
 Qed.
 
-Theorem propagate_degrees_validated_at_every_budget : forall kv kd p idom c c',
-  deg_wf c = true -> propagate kv kd p idom c = Ok c' -> djust_cfg c' idom = true.
+Lemma pv_blocks_preds p : forall bs env res b bs' env',
+  pv_blocks p env res bs = Ok (b, bs', env') -> map b_preds bs' = map b_preds bs.
 Proof.
-  intros kv kd p idom c c' Hwf. unfold propagate.
+  induction bs as [|blk tl IH]; intros env res b bs' env'; cbn [pv_blocks].
+  - intros [= <- <- <-]. reflexivity.
+  - destruct res; [intros [= <- <- <-]; reflexivity|].
+    destruct (pv_stmts p env false (b_stmts blk)) as [[[r1 ss'] env1]| | |] eqn:Es; try discriminate. cbn [bind].
+    destruct (pv_blocks p env1 r1 tl) as [[[r2 tl'] env2]| | |] eqn:Et; try discriminate. cbn [bind].
+    intros [= <- <- <-]. cbn [map]. rewrite (IH _ _ _ _ _ Et). destruct blk; reflexivity.
+Qed.
+
+Lemma values_passes_preds p : forall k env bs bs' env',
+  values_passes k p env bs = Ok (bs', env') -> map b_preds bs' = map b_preds bs.
+Proof.
+  induction k as [|k IH]; intros env bs bs' env'; cbn [values_passes].
+  - intros [= <- <-]. reflexivity.
+  - destruct (pv_blocks p env false bs) as [[[rerun bs1] env1]| | |] eqn:Ep; try discriminate. cbn [bind].
+    pose proof (pv_blocks_preds p _ _ _ _ _ _ Ep) as H1. destruct rerun.
+    + intros Hk. rewrite (IH _ _ _ _ Hk). exact H1.
+    + intros [= <- <-]. exact H1.
+Qed.
+
+Theorem propagate_degrees_validated_at_every_budget : forall kv kd p idom c c',
+  deg_wf c = true -> idom_shape c idom = true -> propagate kv kd p idom c = Ok c' -> djust_cfg c' idom = true.
+Proof.
+  intros kv kd p idom c c' Hwf Hshape. unfold propagate.
   destruct (values_passes kv p [] (c_blocks c)) as [[bs1 env1]| | |] eqn:Ev; try discriminate. cbn [bind].
   destruct (degrees_passes kd idom (denv_init (c_kind c) (c_params c)) bs1) as [bs2 env2] eqn:Ed.
   intros [= <-].
   assert (Hwf1 : deg_wf (set_blocks c bs1) = true).
   { rewrite (deg_wf_vserase c (c_blocks c) bs1 (values_passes_vpres p _ _ _ _ _ Ev)).
     destruct c; exact Hwf. }
-  exact (degrees_validated_at_every_budget kd idom (set_blocks c bs1) bs2 env2 Hwf1 Ed).
+  assert (Hshape1 : idom_shape (set_blocks c bs1) idom = true).
+  { rewrite (idom_shape_preds c (set_blocks c bs1) idom); [exact Hshape|].
+    cbn [set_blocks c_blocks]. exact (values_passes_preds p _ _ _ _ _ Ev). }
+  exact (degrees_validated_at_every_budget kd idom (set_blocks c bs1) bs2 env2 Hwf1 Hshape1 Ed).
 Qed.
